@@ -239,6 +239,31 @@ class FakeSock:
         self.closed = True
 
 
+class _stream_server_patched:
+    """While a Server object is constructed, every name under which qs.rpcserver (or gevent.server)
+    holds the StreamServer class points at the stand-in."""
+
+    def __init__(self, fake):
+        self.fake = fake
+        self.saved = []
+
+    def __enter__(self):
+        import gevent.server as gs
+        real = gs.StreamServer
+        for mod in (gs, rpcserver, getattr(rpcserver, "gserver", None)):
+            if mod is None:
+                continue
+            for name, val in list(vars(mod).items()):
+                if val is real:
+                    self.saved.append((mod, name, val))
+                    setattr(mod, name, self.fake)
+
+    def __exit__(self, *exc):
+        for mod, name, val in self.saved:
+            setattr(mod, name, val)
+        return False
+
+
 _LOOPBACK = []
 
 
@@ -392,51 +417,83 @@ class QsSim:
         loaded by then); nothing is served and nothing of the simulator's view changes."""
         sim = self
 
-        class SimServer(_REAL_SERVER[0]):
-            def __init__(fs, port=8080, host="", get_request_handler=None, secret=None, is_allowed=None):
+        class FakeStreamServer:
+            """Stands in for gevent.server.StreamServer inside qs.rpcserver: no socket is bound; the
+            simulator hands connections to the handler the way StreamServer would (spawn(handle, ...))."""
+            pool = None
+
+            def __init__(ss, listener, handle=None, spawn="default", **_kw):
+                ss.address = listener
+                ss.handle = handle
+                ss._spawn = spawn
+                ss.socket = _Namespace(getsockname=lambda: ("sim", 14311))
+                ss._stop = gevent.event.Event()
+                ss.started = False
                 if bind_fails:
                     raise OSError(98, "Address already in use (injected)")
-                fs.port = port
-                fs.host = host
-                fs.secret = secret
-                fs.pool = gevent.pool.Pool(1024, rpcserver.ClientGreenlet)
-                fs.client_count = 0
-                fs.is_allowed = is_allowed if is_allowed is not None else (lambda ip: True)
-                fs.stream_server = _Namespace(socket=_Namespace(getsockname=lambda: ("sim", 14311)))
-                fs.stop = gevent.event.Event()
+                sim._stream_servers.append(ss)
 
-                # the Handler class Main.run built; __call__/shutdown only stamp, then delegate
-                class Stamped(get_request_handler):
-                    def __call__(self, req):
-                        sim._on_exec(self.client[0], req)
-                        return super().__call__(req)
+            def init_socket(ss):
+                pass
 
-                    def shutdown(self):
-                        sim._on_shutdown(self.client[0])
-                        sim._lot = []
-                        try:
-                            super().shutdown()
-                        finally:
-                            lot, sim._lot = sim._lot, None
-                            fn = getattr(sim.observer, "on_shutdown_done", None)
-                            if fn is not None and lot and not sim.stopping:
-                                sim._notify(fn, self.client[0].name, lot)
+            def start(ss):
+                ss.started = True
 
-                def make_handler(**kw):
-                    h = Stamped(**kw)
-                    sim.handlers[kw["client"][0].name] = h
-                    return h
+            def serve_forever(ss, stop_timeout=None):
+                ss.started = True
+                ss._stop.wait()
 
-                fs.get_request_handler = make_handler
+            def stop(ss, timeout=None):
+                ss._stop.set()
+
+            close = stop
+
+            def accept(ss, sock, addr):
+                if ss._spawn == "default" or ss._spawn is None:
+                    return gevent.spawn(ss.handle, sock, addr)
+                if hasattr(ss._spawn, "spawn"):
+                    return ss._spawn.spawn(ss.handle, sock, addr)
+                return ss._spawn(ss.handle, sock, addr)
+
+        class SimServer(_REAL_SERVER[0]):
+            """rpcserver.Server with its own __init__, run_forever and handle_client; the subclass only
+            wraps the request-handler factory (to stamp executions) and swaps the stream server class."""
+
+            def __init__(fs, *a, **kw):
+                grh = kw.get("get_request_handler")
+                if grh is not None:
+                    # the Handler class Main.run built; __call__/shutdown only stamp, then delegate
+                    class Stamped(grh):
+                        def __call__(self, req):
+                            sim._on_exec(self.client[0], req)
+                            return super().__call__(req)
+
+                        def shutdown(self):
+                            sim._on_shutdown(self.client[0])
+                            sim._lot = []
+                            try:
+                                super().shutdown()
+                            finally:
+                                lot, sim._lot = sim._lot, None
+                                fn = getattr(sim.observer, "on_shutdown_done", None)
+                                if fn is not None and lot and not sim.stopping:
+                                    sim._notify(fn, self.client[0].name, lot)
+
+                    def make_handler(**hkw):
+                        h = Stamped(**hkw)
+                        sim.handlers[hkw["client"][0].name] = h
+                        return h
+
+                    kw["get_request_handler"] = make_handler
+                with _stream_server_patched(FakeStreamServer):
+                    super().__init__(*a, **kw)
                 sim.server = fs
-
-            def run_forever(fs):
-                fs.stop.wait()
 
             def log(fs, msg):
                 pass
 
         rpcserver.Server = SimServer
+        self._stream_servers = []
         if bind_fails:
             main = qserve.Main(14311, "sim", self.data_dir, set())  # real loaddb()
             g = gevent.spawn(main.run)
@@ -468,7 +525,21 @@ class QsSim:
             os.environ.pop("QSERVE_BACKDOOR", None)
         self.main = qserve.Main(14311, "sim", self.data_dir, set())  # real loaddb()
         for name in ("report", "watchdog", "handletimeouts"):
-            setattr(self.main, name, self._stamped_timer(name, getattr(self.main, name)))
+            if hasattr(self.main, name):
+                setattr(self.main, name, self._stamped_timer(name, getattr(self.main, name)))
+        # housekeeping functions under other names (a refactored Main) are stamped all the same, as
+        # ticks of an unknown kind: the model then resolves time-outs and drops by observation only
+        if not hasattr(misc.CallInLoop, "_vsim_real_init"):
+            misc.CallInLoop._vsim_real_init = misc.CallInLoop.__init__
+
+            def _init(cl, sleep_time, function, *a, **kw):
+                cur = QsSim._current
+                if cur is not None and not getattr(function, "_vsim_stamped", False):
+                    function = cur._stamped_timer("other:" + getattr(function, "__name__", "?"), function)
+                misc.CallInLoop._vsim_real_init(cl, sleep_time, function, *a, **kw)
+
+            misc.CallInLoop.__init__ = _init
+        QsSim._current = self
         self.workq = self.main.db.workq
         self._lot = None
         real_push = getattr(self.workq, "pushjob", None)
@@ -492,13 +563,15 @@ class QsSim:
         self.main_greenlet = gevent.spawn(self.main.run)
         self.timer_greenlets = []
         gevent.idle()  # Main.run proceeds to run_forever; the timer loops do their first round
-        if getattr(self, "server", None) is None or self.server.stop.is_set():
+        if getattr(self, "server", None) is None or not self._stream_servers or not self._stream_servers[-1].started \
+                or self.main_greenlet.dead:
             raise HarnessError("qserve.Main.run did not reach run_forever")
 
     def _stop_server(self):
         """Graceful stop: run_forever returns, Main.run's finally saves the queue and kills
         its timer loops."""
-        self.server.stop.set()
+        for ss in self._stream_servers:
+            ss._stop.set()
         gevent.idle()
         if not self.main_greenlet.dead:
             self.main_greenlet.kill(block=True)
@@ -511,6 +584,7 @@ class QsSim:
                 pass
 
     _all_backdoors = []
+    _current = None
 
     def _close_backdoors(self):
         # (the process is gone: its listening sockets go with it)
@@ -539,7 +613,8 @@ class QsSim:
             fun()
             self._notify(self.observer.on_tick_done, name, self.clock.time())
 
-        tick.__name__ = name
+        tick.__name__ = name.split(":")[-1]
+        tick._vsim_stamped = True
         return tick
 
     # ---- stamping --------------------------------------------------------------
@@ -645,7 +720,7 @@ class QsSim:
         self.conns[name] = sock
         self.socks[cid] = sock
         self._stamp("connect", cid)
-        sock.greenlet = self.server.pool.spawn(self.server.handle_client, sock, (cid, 0))
+        sock.greenlet = self._stream_servers[-1].accept(sock, (cid, 0))
         return True
 
     def cid(self, name):
@@ -752,4 +827,5 @@ class QsSim:
         finally:
             self._close_backdoors()
             os.environ.pop("QSERVE_BACKDOOR", None)
+            QsSim._current = None
             self._uninstall()
